@@ -5,7 +5,7 @@ CONSTANTS
   Alpha = 1
   MaxTTL = 4
   MaxFinds = 1
-  MaxInjects = 1
+  MaxInjects = 0
   MaxExpires = 1
   MaxLosses = 1
   AsBuilt = FALSE
